@@ -381,6 +381,18 @@ static void precond(unsigned n_, const double *x_, const double *v, double *vpre
     }
 }
 
+/* preconditioner of a scalar constraint (item kind `p`): Hessian of cval times v (kinds 1 / 3: +-2 I; linear kinds: 0) */
+static long npre_c = 0;
+static void precond_c(unsigned n_, const double *x_, const double *v, double *vpre, void *data)
+{
+    fdata_t *d = (fdata_t *) data;
+    unsigned i;
+    (void) x_;
+    if (!d || d->magic != 0xC0FFEEu || d->role == 0) fprintf(out, "A bad constraint-preconditioner data pointer\n");
+    for (i = 0; i < n_; ++i) vpre[i] = (d && d->ck == 1 ? 2.0 : (d && d->ck == 3 ? -2.0 : 0.0)) * v[i];
+    ++npre_c;
+}
+
 /* munge hooks (spec key munge=1): the copy hook returns a fresh clone of the data record, the destroy hook releases one
    reference; a ledger counts what was handed to the library and what came back, and what happened INSIDE nlopt_optimize */
 #define MAXLEDGER 4096
@@ -480,7 +492,10 @@ static int add_constraints(nlopt_opt o, const char *spec, int role, int *nfd)
         nlopt_result r;
         for (t = strtok_r(item, ":", &s2); t && nf < 8; t = strtok_r(NULL, ":", &s2)) f[nf++] = t;
         d->magic = 0xC0FFEEu; d->role = role; d->index = idx++;
-        if (f[0][0] == 's' && nf >= 5) {
+        if (f[0][0] == 'p' && nf >= 5 && role == 1) {     /* scalar inequality constraint with a preconditioner */
+            d->vec = 0; d->m = 1; d->ck = atoi(f[1]); d->b = parsehex(f[3]); d->j0 = atoi(f[4]);
+            r = nlopt_add_precond_inequality_constraint(o, sc_for(role, d->index), precond_c, d, parsehex(f[2]));
+        } else if (f[0][0] == 's' && nf >= 5) {
             d->vec = 0; d->m = 1; d->ck = atoi(f[1]); d->b = parsehex(f[3]); d->j0 = atoi(f[4]);
             r = role == 1 ? nlopt_add_inequality_constraint(o, sc_for(role, d->index), d, parsehex(f[2]))
                 : nlopt_add_equality_constraint(o, sc_for(role, d->index), d, parsehex(f[2]));
